@@ -4,6 +4,7 @@ import json, os
 ROOT = os.path.dirname(os.path.dirname(os.path.abspath(__file__)))
 
 CLAIMED = {
+    "C01": ("§4 C01", "request scope/body fidelity for HTTP/1.x and HTTP/2 request templates over every (quick: strided) two-way split of the client bytes, ordered multi-cut splits of long bodies, prompt vs late-reading application, raw-header mode; filter_pseudo_headers against a reference for every short header list"),
     "C17": ("§4 C17", "_build_environ against a PEP 3333 reference over path/root_path/header/query tables, body-limit logic for every chunk length and limit (unbounded ints), run_app over 11 WSGI application shapes, non-HTTP scopes"),
     "C20": ("§4 C20", "ProxyFix trust boundary (structure of forwarding headers x trusted_hops x mode, attacker-prefix independence, caller scope untouched), Dispatcher routing over mount tables and all short paths, HTTPS redirect URL construction over scope tables"),
     "C02": ("§4 C02", "HTTPStream.app_send response mapping for every status/method/version/chunking shape, suppress_body for every int status, H11/H2 stream_send header composition for every status and counter value"),
